@@ -79,6 +79,21 @@ def find_guards(ctx):
                     ub = cv if ub is None else min(ub, cv)
                 elif (op2 == "Lt" and holds) or (op2 == "Ge" and not holds):
                     ub = cv - 1 if ub is None else min(ub, cv - 1)
+            # (c) both at once: on the true edge of `product.is_some_and(|p| p <= C)`
+            for g in panics._cmp_guards(b, okb):
+                if g[0] != "call" or not g[4]:
+                    continue
+                c2 = g[1]
+                if not norm(c2.callee or "").endswith("Option::is_some_and") or len(c2.args) != 2:
+                    continue
+                ap = op_place(c2.args[0])
+                if ap is None or b.root(ap)[0] != prod or b.root(ap)[1]:
+                    continue
+                cb = _closure_body(ctx, b, c2.args[1])
+                cu = _true_only_below(cb) if cb is not None else None
+                if cu is not None:
+                    some_ok = True
+                    ub = cu if ub is None else min(ub, cu)
             if not some_ok or ub is None:
                 good = False
                 break
@@ -88,6 +103,33 @@ def find_guards(ctx):
     return out
 
 
+def _true_only_below(cb):
+    """C if the one-parameter predicate closure returns true only when its parameter is <= C (every assignment of the result is
+    `param <= C`, `param < C+1` or the constant false), else None"""
+    ub = None
+    for i, j, s in cb.all_stmts():
+        if s[0] != "=" or s[1] != [0, []]:
+            continue
+        rv = s[2]
+        if rv[0] == "use" and rv[1][0] == "c" and panics._int_const(cb, rv[1]) == 0:
+            continue
+        if rv[0] != "bin" or rv[1] not in ("Le", "Lt"):
+            return None
+        ap = op_place(rv[2])
+        cv = panics._int_const(cb, rv[3])
+        if ap is None or cv is None:
+            return None
+        rt = cb.root(ap)
+        if rt[0] != 2 or [x for x in rt[1] if x != "*"]:
+            return None
+        u = cv if rv[1] == "Le" else cv - 1
+        ub = u if ub is None else max(ub, u)
+    for c in cb.calls():
+        if c.dest[0] == 0:
+            return None
+    return ub
+
+
 def _closure_body(ctx, b, op):
     p = op_place(op)
     d = b.single_def(p[0]) if p is not None and not p[1] else None
@@ -95,6 +137,28 @@ def _closure_body(ctx, b, op):
         bs = ctx.prog.get(norm(d[3][1]["def"]))
         return bs[0] if bs else None
     return None
+
+
+def _payload_guard_kparam(h, op, guards):
+    """the index of the parameter of `h` that is passed as k when `op` is the Ok payload (`G(x, k)?`) of a guard, else None"""
+    p = op_place(op)
+    if p is None:
+        return None
+    rt = h.root(p)
+    if [x[1] for x in rt[1] if isinstance(x, list) and x[0] == "d"] != ["Continue"]:
+        return None
+    d = h.single_def(rt[0])
+    if not (d and d[0] == "call" and (d[2].callee or "").endswith("Try>::branch") and d[2].args):
+        return None
+    rp = op_place(d[2].args[0])
+    d2 = h.single_def(h.root(rp)[0]) if rp is not None else None
+    if not (d2 and d2[0] == "call" and norm(d2[2].callee or "") in guards and len(d2[2].args) == 2):
+        return None
+    kp = op_place(d2[2].args[1])
+    kr = h.root(kp) if kp is not None else None
+    if kr is None or kr[1] or not (1 <= kr[0] <= h.f["argc"]):
+        return None
+    return kr[0]
 
 
 def _guard_k(ctx, b, op, guards, depth=3):
@@ -159,6 +223,35 @@ def establish(ctx):
                         if ap is not None and cl.root(ap)[0] == 2 and not [x for x in cl.root(ap)[1] if x != "*"]:
                             sites.append((nm[len(CTOR):], cl, c2.loc, k, "map(|v| .. %s(v))" % nm.split("::")[-1]))
                             accounted.add((cl.id, c2.bb))
+    # form C: a helper of the parser that receives (k, constructor) together and applies the constructor, through the function
+    #         pointer, to the Ok payload of G(_, k): each call of the helper is a site, with the constant k and the function item
+    #         it passes
+    for h in ctx.prog.bodies.values():
+        if h.f["crate"] != "ironplc_parser" or "::test" in norm(h.id):
+            continue
+        for ic in h.calls():
+            if ic.callee is not None or not ic.indirect or len(ic.args) != 1:
+                continue
+            fp = op_place(ic.indirect)
+            fr = h.root(fp) if fp is not None else None
+            if fr is None or not (1 <= fr[0] <= h.f["argc"]) or fr[1]:
+                continue
+            kp = _payload_guard_kparam(h, ic.args[0], guards)
+            if kp is None:
+                continue
+            for b in ctx.prog.bodies.values():
+                if b.f["crate"] != "ironplc_parser" or "::test" in norm(b.id):
+                    continue
+                for c in b.calls():
+                    if norm(c.callee or "") != norm(h.id) or len(c.args) < max(kp, fr[0]):
+                        continue
+                    k = panics._int_const(b, c.args[kp - 1])
+                    kk = b.const_of(c.args[fr[0] - 1])
+                    rfn = norm(kk[3]["rfn"]) if kk is not None and len(kk) > 3 and isinstance(kk[3], dict) and kk[3].get("rfn") else None
+                    if rfn and rfn.startswith(CTOR) and rfn[len(CTOR):] in UNITS:
+                        sites.append((rfn[len(CTOR):], b, c.loc, k, "%s(.., %s)" % (norm(h.id).split("::")[-1], rfn.split("::")[-1])))
+                    # anything else that is passed (a closure, another function) is covered by the sweep below: a constructor
+                    # call inside it is a direct call that no guard accounts for
     # direct calls that no guarded map accounts for
     for b in ctx.prog.bodies.values():
         if b.f["crate"] not in ("ironplc_parser", "ironplc_analyzer", "ironplcc", "ironplc_plc2plc") or "::test" in norm(b.id):
